@@ -49,6 +49,10 @@ def gen_dataset(r, dmax=6, kind=None, tuples=True, unknown=False, big=False, tin
   if int_rows_p and (kind or "blobs") == "blobs" and not desc.get("global_scale") and r.random() < int_rows_p:
     # (never together with a tiny global scale: rounding would collapse every point onto 0)
     desc["int_rows"] = r.choice([0.3, 0.6])
+  rr = substream(desc["seed"], "store-returns")      # (own stream: older plans keep their other choices)
+  if rr.random() < 0.2:
+    # a callable store over this data answers with a nested list / tuple of tuples, not an ndarray
+    desc["store_returns"] = rr.choice(["list", "tuple"])
   return desc
 
 
@@ -323,6 +327,8 @@ def gen_history(seed, tier, classes=None, weights=None, n_ops=(6, 16),
         p["far"] = r.choice([20, 30, 36])
       elif r.random() < 0.3:
         p["f32"] = True
+      elif substream(seed, "hist-huge-%d" % p["seed"]).random() < 0.4:
+        p["huge"] = True
     return p
 
   def methods(s):
@@ -411,6 +417,11 @@ def gen_history(seed, tier, classes=None, weights=None, n_ops=(6, 16),
                       m=r.randint(4, 12), noise=r.choice([0, 0.2, 0.5]),
                       dups=r.random() < 0.4, cp=gen_cp(r, inv),
                       via="indices" if (s.pre and r.random() < 0.5) else "formed"))
+      if ops[-1]["via"] == "formed" and substream(seed, "hist-nearties-%d" % len(ops)).random() < 0.35:
+        # half of the validation pairs are translated / minutely rescaled copies of the other
+        # half: learned distances that differ in the last place or two, with conflicting labels
+        ops[-1]["near_ties"] = True
+        ops[-1]["m"] = max(ops[-1]["m"], 8)
       if calib_other_p and r.random() < calib_other_p and len(dkeys) > 1:
         # validation pairs from another dataset (possibly of another width: then the
         # call is rejected - and must leave the fitted model as it was)
